@@ -829,13 +829,11 @@ class ConnReplayer:
         inst = self.c1._normal_storage
         if end == 'CommitSpStoreRaises':
             # the real storage's store() fails for the record of one object: the k-th store of the copy loop
-            bad = self.objs[str(steps[-1]['args'][0])]._p_oid
+            victim = self.objs[str(steps[-1]['args'][0])]       # (a new object gets its oid inside commit())
             real_store = inst.store
-            if bad is None:
-                raise Mismatch('commit.setup', 'object of the savepoint store has an oid', 'no oid')
 
             def failing_store(oid, *a, **kw):
-                if oid == bad:
+                if oid == victim._p_oid:
                     raise Injected('storage error at the record of %s' % oid_repr(oid))
                 return real_store(oid, *a, **kw)
             inst.store = failing_store
